@@ -34,7 +34,9 @@ EXPLANATION = (
     'stored NULLs of a column whose NULL-ability does not change); '
     'R-C02.10 no declared initial value is used as a truth value (shared with R-C03.8).'
     ' '
-    'R-C02.11 (= R-C03.15) no function changes a local container after handing it to a signature constructor that keeps `param or <fresh>` (the change is lost for an empty container).')
+    'R-C02.11 (= R-C03.15) no function changes a local container after handing it to a signature constructor that keeps `param or <fresh>` (the change is lost for an empty container).'
+    ' '
+    'R-C02.12 normalize_initial() returns embed=True only under `callable(initial)` (the literal branch of the rebuild overwrites existing values).')
 NOT_DECIDED = (
     'Equality of row contents before/after for all rows and sequences; '
     'behaviour of renames at the SQL level.')
@@ -622,7 +624,61 @@ def r11_no_write_after_handover(ctx):
     r15_no_write_after_conditional_handover(ctx, rule_id='R-C02.11')
 
 
+def r12_embed_only_for_callables(ctx):
+    """normalize_initial() returns (value, embed).  embed=True sends the
+    value down the SQLite rebuild's *literal* branch (`field_values[col] =
+    initial`: every row of the column gets the literal - the known finding
+    for callable SQL text), embed=False down the `coalesce(col, %s)` branch
+    that keeps existing values.  The literal branch is documented for
+    callables returning SQL text only; a path that returns embed=True for a
+    plain value makes a null->non-null ChangeField overwrite every existing
+    value of the column."""
+    ctx.rule('R-C02.12')
+    p = ctx.program
+    n = 0
+    for cls_mod, cname in (('db.common', 'BaseEvolutionOperations'),):
+        for k in [p.cls(cls_mod, cname)] + p.cls(cls_mod,
+                                                 cname).all_subclasses():
+            f = k.methods.get('normalize_initial')
+            if f is None:
+                continue
+            g = ctx.cfg(f)
+            param = [x for x in f.params if x != 'self'][0]
+            callable_tests = [t for t in g.nodes
+                              if t.kind in ('test', 'operand') and
+                              isinstance(t.ast, ast.Call) and
+                              call_name(t.ast) == 'callable' and t.ast.args
+                              and isinstance(t.ast.args[0], ast.Name) and
+                              t.ast.args[0].id == param]
+            for node in g.nodes:
+                if node.kind != 'stmt' or not isinstance(node.ast,
+                                                         ast.Return):
+                    continue
+                v = node.ast.value
+                if not (isinstance(v, ast.Tuple) and len(v.elts) == 2):
+                    continue
+                n += 1
+                flag = v.elts[1]
+                if isinstance(flag, ast.Constant) and flag.value is False:
+                    ctx.ok(f, 'parameter path', node.ast)
+                    continue
+                if any(g.guarded_by(node, t, 'T') for t in callable_tests):
+                    ctx.ok(f, 'embedding only for the result of a callable '
+                           'initial', node.ast)
+                else:
+                    ctx.finding(f, node.ast, '%s can return embed=%s for an '
+                                'initial value that is not the result of a '
+                                'callable: the SQLite rebuild then selects '
+                                'the literal for every row instead of '
+                                'coalesce(column, value), overwriting the '
+                                'existing values of the column' % (
+                                    f.qualname, unparse(flag)),
+                                key='embed-for-plain-value')
+    ctx.floor('returns of normalize_initial', n, 2)
+
+
 def run(ctx):
+    r12_embed_only_for_callables(ctx)
     r11_no_write_after_handover(ctx)
     r10_initial_sentinel(ctx)
     r9_initial_only_for_null_change(ctx)
